@@ -9,7 +9,11 @@
     reproduced): task-side log => bodies never overlap, none after success; the observed order is replayed on the
     Lean process model (Drive/C11.lean), which must predict who ran the body;
 (c) two or three real schedulers (experiment processes) submit the same job on one workspace; the identity (inode) of
-    the job's run lock file is watched: the model's "one lock = one file".
+    the job's run lock file is watched: the model's "one lock = one file";
+(d) a job that WAITS in one scheduler (token held by a blocker task) while another scheduler (another experiment process on the
+    same workspace) runs the same configuration to completion; the waiting jobs are then released (impl/c05_waitdone_worker.py,
+    sequenced through files): the success marker appeared *after* submission, the waiting scheduler does start the job (the
+    code tests the marker at submission only) but the body must not run again — Lean: `C05.done_while_waiting_no_body`.
 """
 import json
 import os
@@ -20,7 +24,7 @@ from .. import common, identlib
 from . import _sched
 
 PROP = "C05"
-MODULES = ["XpmVerif.Properties.C05"]
+MODULES = ["XpmVerif.Properties.C05", "XpmVerif.Properties.C05Wait"]
 GEN = dict(max_jobs=7, max_tokens=2, resubmit=True, markers=True, fail_p=0.2, marker_p=0.25, resubmit_p=0.4)
 RULE = ("(a) random workloads (<= 7 jobs, <= 2 tokens; 40 % of the jobs re-submit an earlier configuration, 25 % find a success marker, 20 % fail) x "
         "random schedules on the real Scheduler + all schedules of 5 small workloads, compared event by event with the Lean model; "
@@ -29,7 +33,9 @@ RULE = ("(a) random workloads (<= 7 jobs, <= 2 tokens; 40 % of the jobs re-submi
         "instant launcher; non-trivial = some configuration submitted again; (b) 2-3 launchers racing for one real job script "
         "(seeded start offsets, optional first failure); (c) 2-3 real experiment processes (different experiment names, one workspace) submit the same task "
         "configuration within 0-0.3 s, scheduler-side start slowed through a public Listener or not, or forced (the later ones queue on the job lock while the first "
-        "starts the job); monitors: bodies never overlap, none after success, every experiment ends DONE, the lock file stays one inode; distinct = hash of the case")
+        "starts the job); monitors: bodies never overlap, none after success, every experiment ends DONE, the lock file stays one inode; "
+        "(d) 1-3 jobs waiting for a token in scheduler B while scheduler A (other process, same workspace) completes all / some of them (or fails them the first "
+        "time), then released; non-trivial = a success marker appeared while the job waited; distinct = hash of the case")
 
 
 def _nontrivial(spec, ev):
@@ -328,13 +334,99 @@ def twosched_part(ctx):
         raise RuntimeError(f"{errs}/{len(cases)} two-scheduler cases could not be run: {next(o['error'] for o in outs if o.get('error'))}")
 
 
+# ------------------------------------------------------------------------------------ (d) completed by another scheduler while waiting
+
+
+def waitdone_cases(ctx, rng):
+    specs = [([1], [1], False), ([1, 2], [2], False), ([1, 2], [1, 2], True)] if ctx.quick() else \
+        [([1], [1], False), ([1, 2], [2], False), ([1, 2], [1, 2], True), ([1, 2, 3], [1, 3], False), ([1], [], False), ([1, 2], [1, 2], False),
+         ([1, 2, 3], [2], True), ([1], [1], True)]
+    cases = []
+    for i, (xs, axs, ff) in enumerate(specs):
+        base = 700 + 10 * i
+        cases.append({"id": f"waitdone{i}", "xs": [base + x for x in xs], "a_xs": [base + x for x in axs], "fail_first": ff,
+                      "hold": rng.choice([0.1, 0.2, 0.4]), "settle": rng.choice([0.2, 0.4, 0.8])})
+    return cases
+
+
+def waitdone_monitor(case, o):
+    """(key, what): second and third sentence on a job that another scheduler completes while it waits in this one"""
+    fails = []
+    if o.get("error"):
+        return fails
+    tag = (f"scheduler B submits jobs {case['xs']} which wait for a token; scheduler A (another experiment process on the workspace) meanwhile runs {case['a_xs']}"
+           f"{' (first execution fails)' if case['fail_first'] else ''} and exits; B's jobs are then released")
+    for x in case["xs"]:
+        ivs = sorted(o["intervals"].get(str(x), []), key=lambda iv: iv[1])
+        for a in range(len(ivs)):
+            for b in range(a + 1, len(ivs)):
+                ea = ivs[a][2] if ivs[a][2] is not None else float("inf")
+                if ivs[b][1] < ea:
+                    fails.append(("bodies-overlap:waiting-scheduler", f"{tag}: the bodies of processes {ivs[a][0]} and {ivs[b][0]} of job {x} overlap"))
+        succ = [iv for iv in ivs if iv[3] == "end"]
+        after = [iv for iv in ivs if succ and iv[1] > min(s[2] for s in succ)]
+        if len(succ) > 1 or after:
+            marker = "its success marker existed when B released it" if x in (o.get("done_before_release") or []) else "no marker at release"
+            fails.append(("body-run-again-after-success:waiting-scheduler",
+                          f"{tag}: the body of job {x} was executed {len(ivs)} times, {len(succ)} successfully, {len(after)} start(s) after the first success ({marker})"))
+        if not succ:
+            fails.append(("waiting-job-never-succeeded", f"{tag}: job {x} never completed (executions {[[iv[0], iv[3]] for iv in ivs]}; finals {o.get('finals')}; {o.get('err', '')[-200:]})"))
+    fb = (o.get("finals") or {}).get("b")
+    if fb is None or fb.get("error") or any(st != "DONE" for st in fb.get("states", {}).values()) or len(fb.get("states", {})) != len(case["xs"]):
+        fails.append(("scheduler-did-not-end-done:waiting-scheduler", f"{tag}: the waiting scheduler ended with {fb} (rc {o.get('rcs')}; {o.get('err', '')[-200:]})"))
+    return fails
+
+
+def waitdone_start(ctx):
+    """the waiting-scheduler cases mostly sleep (experiments starting and stopping): their worker runs beside parts (a')-(c)"""
+    cases = waitdone_cases(ctx, ctx.rng)
+    tmp = ctx.tmpdir()
+    fin, fout = tmp / "waitdone-in.json", tmp / "waitdone-out.json"
+    fin.write_text(json.dumps({"kind": "waitdone", "cases": cases, "parallel": ctx.scale(3, 4)}))
+    env = dict(os.environ)
+    env["PYTHONPATH"] = str(common.VERIF / "harness") + (":" + env["PYTHONPATH"] if env.get("PYTHONPATH") else "")
+    env["PYTHONWARNINGS"] = "ignore"
+    p = subprocess.Popen([sys.executable, "-m", "xv.impl.c05_waitdone_worker", str(fin), str(fout)], env=env, stdout=subprocess.DEVNULL, stderr=subprocess.PIPE, text=True)
+    return cases, p, fout
+
+
+def waitdone_part(ctx, started):
+    cases, p, fout = started
+    try:
+        _, err = p.communicate(timeout=1500)
+    except subprocess.TimeoutExpired:
+        p.kill()
+        raise RuntimeError("worker waitdone timed out")
+    if p.returncode != 0 or not fout.exists():
+        raise RuntimeError(f"worker waitdone failed rc={p.returncode}: {err[-1200:]}")
+    outs = json.loads(fout.read_text())
+    errs = 0
+    for case, o in zip(cases, outs):
+        if o.get("error"):
+            errs += 1
+            ctx.count("waitdone_errors", o["error"][:60])
+            continue
+        appeared = [x for x in case["xs"] if x in (o.get("done_before_release") or [])]
+        ctx.case({"waitdone": case, "log": [l[:3] for l in o["log"]]}, bool(appeared))
+        ctx.count("waitdone_markers_appeared_while_waiting", len(appeared))
+        ctx.count("waitdone_bodies_run", sum(len(v) for v in o["intervals"].values()))
+        ctx.count("waitdone_fail_first", case["fail_first"])
+        for key, what in waitdone_monitor(case, o):
+            ctx.monitor_fail(key, what, {"waitdone": case})
+        ctx.traces_validated += 1
+    if errs > len(cases) // 3:
+        raise RuntimeError(f"{errs}/{len(cases)} waiting-scheduler cases could not be run: {next(o['error'] for o in outs if o.get('error'))}")
+
+
 def correspond(ctx):
     ctx.assumptions += ["mutual exclusion of the run lock and its release on process death are properties of flock (trusted; sampled by the races)",
                         "the real-API histories use an instant launcher (no job process): they exercise submit(), the registry and aio_submit, not run.py"]
     _sched.run(ctx, PROP, GEN, RULE, 1500, 25000, focus={"C05"}, nontrivial_fn=_nontrivial)
+    wd = waitdone_start(ctx)
     api_part(ctx)
     race_part(ctx)
     twosched_part(ctx)
+    waitdone_part(ctx, wd)
     ctx.rule = RULE
 
 
@@ -364,6 +456,13 @@ def replay(ctx, obj):
             o = run_worker_cases(ctx, "twosched", [c["twosched"]], parallel=1)[0]
             fails = twosched_monitor(c["twosched"], o)
             print("replay two schedulers:", fails[:2] if fails else "no failure on this tree")
+            if fails:
+                rc = 1
+                print(f"VIOLATION property={PROP} replay=(replayed)")
+        elif "waitdone" in c:
+            o = run_worker_cases(ctx, "waitdone", [c["waitdone"]], parallel=1, module="xv.impl.c05_waitdone_worker")[0]
+            fails = waitdone_monitor(c["waitdone"], o)
+            print("replay waiting scheduler:", fails[:2] if fails else "no failure on this tree", "| steps:", o.get("steps"), "| executions:", [l[:3] for l in o.get("log", [])])
             if fails:
                 rc = 1
                 print(f"VIOLATION property={PROP} replay=(replayed)")
